@@ -452,7 +452,7 @@ _ADDED10 = {
     "C07": " (S2, extended) in a generated write method nothing returns between the state check and the assignment that records the step.",
     "C08": " (V1-V4) visitor and rewriter coverage registered here too.",
     "C09": " (P6c) every yaml Decode of a model file stands in a loop (multi-document files); (BN2) see C06; (P6b) registered here too.",
-    "C10": " (BN2) see C06; (LF1) see C18.",
+    "C10": " (BN2) see C06; (LF1) see C18; (NP2) a pointer field of a parser syntax node (a grammar alternative) is dereferenced only under a nil test.",
     "C11": " (I4) start value, step and rejecting test of the import depth counter, evaluated for nesting levels 0,1,2,…, reject exactly level MaxImportRecursionDepth, and the test is a top-level statement; "
            "(P6c) see C09; (I1, L3) registered here too.",
     "C12": " (T3, T3b) registered here too: the working directory is restored on every path.",
